@@ -23,8 +23,8 @@ ASSUMPTIONS = ["mid-timestep registrations are new objects (fresh or re-used ids
 
 
 class Scripted(System):
-    def __init__(self, id, model, priority, world, token, start=0, frequency=1):
-        super().__init__(id, model, priority=priority, start=start, frequency=frequency)
+    def __init__(self, id, model, priority, world, token, start=0, frequency=1, end=None):
+        super().__init__(id, model, priority=priority, start=start, frequency=frequency, **({} if end is None else {"end": end}))
         self.world = world
         self.token = token
 
@@ -82,17 +82,20 @@ class World:
         return [t for t, _ in sorted(self.live.items(), key=lambda kv: (-kv[1][0], kv[1][1]))]
 
     def due(self, tok, t):
-        start, freq = self.win[tok]
-        return start <= t and (t - start) % freq == 0
+        start, freq, end = self.win[tok]
+        return start <= t and (end is None or t <= end) and (t - start) % freq == 0
 
     def register(self, prio, event=True, sid=None, win=None):
         tok = len(self.all)
         start, freq = (max(0, int(win[0])), max(1, int(win[1]))) if win else (0, 1)
-        self.win[tok] = (start, freq)
+        end = int(win[2]) if win and len(win) > 2 and win[2] is not None else None      # a finite last timestep (optional third entry)
+        self.win[tok] = (start, freq, end)
+        if end is not None:
+            self.labels.add("finite-end")
         if (start, freq) != (0, 1):
             self.labels.add("sparse-window")
         s = (FalsyScripted if tok % 3 == 2 else (EqScripted if self.eq_systems else Scripted))(sid or f"sys{tok}", self.model, prio, self, tok,
-                                                                                                start=start, frequency=freq)
+                                                                                                start=start, frequency=freq, end=end)
         self.all.append(s)
         self.model.systems.add_system(s)
         self.seq += 1
@@ -267,7 +270,7 @@ def run_case(case):
 
 def _action():
     rem = st.fixed_dictionaries({"a": st.just("remove"), "target": st.integers(0, 7)})
-    win = st.sampled_from([None, None, None, [0, 1], [1, 1], [0, 2], [1, 2], [2, 3], [0, 5]])
+    win = st.sampled_from([None, None, None, [0, 1], [1, 1], [0, 2], [1, 2], [2, 3], [0, 5], [0, 1, 0], [0, 1, 1], [0, 1, 2], [1, 1, 3], [0, 2, 2]])
     add = st.fixed_dictionaries({"a": st.just("add"), "prio": st.integers(0, 3), "reuse": st.booleans(), "win": win,
                                  "same": st.sampled_from([False, False, True, 2])})
     dup = st.fixed_dictionaries({"a": st.just("add_dup"), "target": st.integers(0, 7), "prio": st.integers(0, 3)})
@@ -291,7 +294,7 @@ def strategy(tier):
     small = st.fixed_dictionaries({"systems": st.lists(st.integers(0, 2), min_size=2, max_size=6),
                                    "scripts": st.lists(script, min_size=1, max_size=3),
                                    "steps": st.integers(3, 5), "eq": st.booleans(), "decoy": st.sampled_from([False, False, False, True]),
-                                   "windows": st.one_of(st.just([]), st.just([]), st.lists(st.sampled_from([[0, 1], [0, 1], [0, 2], [1, 2], [1, 3], [2, 1], [0, 5]]),
+                                   "windows": st.one_of(st.just([]), st.just([]), st.lists(st.sampled_from([[0, 1], [0, 1], [0, 2], [1, 2], [1, 3], [2, 1], [0, 5], [0, 1, 0], [0, 1, 1], [0, 1, 2], [0, 1, 3], [1, 2, 3]]),
                                                                                             min_size=2, max_size=6))})
     return wone_of(*([small] * 9 + [_large(tier)]))
 
